@@ -21,9 +21,13 @@ SCHED_FLAGS = "--cfg graaf_verif --cfg graaf_verif_shuttle"
 # runs per (property, tier) for the shuttle engine; fixed counts (never a time
 # box) so that one VERIF_SEED always denotes the same set of runs
 PLAN = {
+    "C01": {"quick": 60000, "thorough": 1500000},
     "C11": {"quick": 4000, "thorough": 60000},
     "C12": {"quick": 6000, "thorough": 80000},
+    "C14": {"quick": 4014, "thorough": 11310},  # 6x / 10x the enumerated grid (669 / 1131 cells)
+    "C15": {"quick": 8000, "thorough": 100000},
     "C17": {"quick": 24000, "thorough": 160000},
+    "C20": {"quick": 24000, "thorough": 500000},
 }
 
 TITLES = {}
@@ -293,11 +297,37 @@ def write_evidence(pid, tier, seed, level, coverage, assumptions, wall, nviol):
 
 
 RULES = {
+    "C01": "a case is (representation, start digraph from a public constructor, mutation history of add_arc / "
+           "add_arc_weighted / remove_arc / toggle with injected rejected calls) drawn from VERIF_SEED and checked against "
+           "the lock-step model after every step; non-trivial = history of >= 3 steps containing >= 1 call that must be "
+           "rejected, executed to the end; distinct = distinct digests of the whole case",
+    "C11": "a case is an input (D, E, vertex predicate) checked in every representation against the set definitions, the "
+           "three threaded implementations additionally under several (CPU count or failing query, scheduler) "
+           "configurations; non-trivial = (a) a threaded execution that really spawned >= 2 workers on an input with "
+           "more rows than workers, or (b) an input with >= 2 vertices and >= 1 arc; distinct = distinct digests of "
+           "(input) resp. (input, configuration)",
+    "C12": "a case is a pair (H, D) of near-miss digraphs whose predicates are evaluated in every representation against "
+           "the definitions, AdjacencyList::is_semicomplete under several (CPU count, scheduler) configurations; "
+           "non-trivial = D has >= 2 vertices, or a threaded execution with >= 2 workers and more rows than workers; "
+           "distinct = distinct digests",
+    "C14": "the (generator, parameter) grid is enumerated completely (orders 0..=70 quick / 0..=136 thorough, biclique "
+           "(m,n) in 0..=12 squared, trivial/claw/utility, inadmissible parameters must panic) in all four "
+           "representations; AdjacencyList::complete additionally under sampled (CPU count, scheduler) configurations; "
+           "non-trivial = grid cell with a non-empty arc set, or threaded execution with >= 2 workers and more rows than "
+           "workers; distinct = distinct digests of the cell resp. (cell, configuration)",
+    "C15": "a case is (generator, order, seed, p) checked for validity and repeatability in all four representations, the "
+           "threaded AdjacencyMap generators under >= 4 schedulers per CPU count (one stalling a worker) with two calls "
+           "per execution; non-trivial = admissible arguments with order >= 2, or threaded execution with >= 2 workers "
+           "and more rows than workers; distinct = distinct digests",
     "C17": "cases are (operation with explicit operands, CPU-count-or-error, scheduler kind+seed) triples drawn from "
            "VERIF_SEED; a case counts as non-trivial when the execution really spawned >= 2 workers and the input has "
            "more rows than workers (some chunk holds >= 2 rows / a merge partition lies inside the input); distinct = "
            "distinct 64-bit digests of (operands, configuration)",
+    "C20": "a case is (representation, history A, route B to the same abstract digraph, route C to a neighbour digraph, "
+           "two post-clone mutation histories); non-trivial = history A has >= 1 mutation and route B has >= 1 detour "
+           "mutation; distinct = distinct digests of the whole case",
 }
+
 
 ASSUMPTIONS = [
     "sampling: a clean batch is evidence within the stated sizes, not a proof",
